@@ -1361,8 +1361,18 @@ def _lane_stub(kind):
                     x = blk[i]
                     l = s_convert(lo[b + i], minval.dtype, dt)
                     h = s_convert(hi[b + i], maxval.dtype, dt)
-                    ctx.assumptions.append(to_z3(s_cmp("ge", x, l, dt), np.bool_))
-                    ctx.assumptions.append(to_z3(s_cmp("lt", x, h, dt), np.bool_))
+                    # jax.random contract: minval <= x < maxval; degenerate range (maxval <= minval) returns minval
+                    proper = s_cmp("lt", l, h, dt)
+                    inside = b_and(s_cmp("ge", x, l, dt), s_cmp("lt", x, h, dt))
+                    degenerate = s_cmp("eq", x, l, dt)
+                    ctx.assumptions.append(to_z3(b_or(b_and(proper, inside), b_and(b_not(proper), degenerate)), np.bool_))
+                    if dt.kind == "f" and is_sym(x):
+                        ctx.assumptions.append(z3.Not(z3.fpIsNaN(x)))
+                    lv, hv = vs_of(l), vs_of(h)
+                    if dt.kind in "iu" and lv is not None and hv is not None and is_sym(x):
+                        lo_i, hi_i = min(lv), max(max(hv) - 1, max(lv))
+                        if hi_i - lo_i < VS_MAX:
+                            vs_set(x, list(range(lo_i, hi_i + 1)))
         return [SV(out, dt)]
     return stub
 
